@@ -83,6 +83,17 @@ def main(argv=None):
     global _PROG
     _PROG = prog
     obs = _load_obligations(pid)
+    # translator validation: library models vs the real cosmwasm-std (cached by model-source hash)
+    from . import validate
+    try:
+        mv = validate.ensure()
+    except Exception as e:
+        print('INCONCLUSIVE property=%s model validation could not run: %s' % (pid, e))
+        return 2
+    if mv.get('n_mismatches') or mv.get('unsupported'):
+        print('INCONCLUSIVE property=%s library models disagree with the real cosmwasm-std: %s' % (
+            pid, json.dumps((mv.get('mismatches') or [mv.get('unsupported')])[0])[:400]))
+        return 2
     todo = [i for i, ob in enumerate(obs) if (tier == 'thorough' or ob.tier == 'quick') and (not a.only or a.only in ob.name)]
     if not todo:
         print('no obligations registered for %s at tier %s' % (pid, tier))
@@ -144,7 +155,8 @@ def main(argv=None):
                 inconclusive.append((ob.name, 'no replayer for %s' % label, rep.get('detail')))
     wall = time.time() - t0
     evidence.write(pid, tier, seed, mir_hash, [results[i] for i in todo], wall, len(violations), replays,
-                   [k for k, _ in known_printed] + [k for k in known.get('open', []) if k['property'] == pid and k['id'] in _ACTIVE])
+                   [k for k, _ in known_printed] + [k for k in known.get('open', []) if k['property'] == pid and k['id'] in _ACTIVE],
+                   model_validation={k: mv.get(k) for k in ('ops', 'cases', 'agree', 'n_mismatches', 'key')})
     printed = set()
     for k in known.get('open', []):
         if k['property'] == pid and k['id'] in _ACTIVE:
